@@ -27,10 +27,13 @@ class Syntax(Engine):
         out = []
         n = len(b)
         size = max(1, n // 2)
-        while size >= 1:
+        # (bounded: a 70 kB input must not make 140 000 candidates of 140 kB each)
+        while size >= 1 and len(out) < 2000:
             for i in range(0, n, size):
                 c = b[:i] + b[i + size:]
                 out.append(c.hex() if c else "-")
+                if len(out) >= 2000:
+                    break
             size //= 2
         seen, res = set(), []
         for c in out:
